@@ -60,6 +60,10 @@ def cmd_setup(_a):
         bad += 1
     json.load(open(os.path.join(ROOT, "MANIFEST.json")))
     json.load(open(os.path.join(ROOT, "known_findings.json")))
+    p = subprocess.run([os.path.join(ROOT, "tools", "clause_owners.py")], capture_output=True, text=True)     # no clause without an owning check
+    if p.returncode != 0:
+        print(p.stdout[-1500:])
+        bad += 1
     print("setup", "FAILED" if bad else "ok")
     return 1 if bad else 0
 
